@@ -47,9 +47,9 @@ func main() {
 	}
 	r := evidence.New("C13", "exploration")
 	r.Rule("hist: case = seeded (registry capability profile over 12 knobs, Repository option set {ManifestMediaTypes default/explicit/custom, TagListPageSize, ReferrerListPageSize, SkipReferrersGC, HandleWarning, preset referrers capability}, " +
-		"content pool from the DAG generator plus one custom-media-type manifest, history of 40–200 operations out of 17 kinds); after every operation: result vs registry-model state, registry-model state vs the oracle's own account, every request vs the specification validator; " +
+		"content pool from the DAG generator plus one custom-media-type manifest, history of 40–200 operations out of 18 kinds (one holds several fetched readers open and reads them later, interleaved)); after every operation: result vs registry-model state, registry-model state vs the oracle's own account, every request vs the specification validator; " +
 		"distinct = (profile, option set, set of operation-kind bigrams); non-trivial = ≥ 4 operation kinds and ≥ 1 manifest with a subject stored. " +
-		"corrupt: case = (operation out of 16, one corrupted field out of 22 of one response, profile); distinct = (operation, corruption, corrupted response's method, digest-header/unknown-length/range bits); non-trivial = the corruption reached a response and the pair is judged")
+		"corrupt: case = (operation out of 16, one corrupted field out of 24 of one response, profile); distinct = (operation, corruption, corrupted response's method, digest-header/unknown-length/range bits); non-trivial = the corruption reached a response and the pair is judged")
 	r.Assume("the registry is regmodel, a model of the OCI distribution specification v1.1 served over plain HTTP on loopback (TLS and real servers are not exercised)")
 	r.Assume("n= on the referrers endpoint (sent only with ReferrerListPageSize > 0) and n= added to a pagination URL handed out in a Link header are tolerated by the request validator")
 	r.Assume("by descriptor, a response that declares a Content-Length different from the descriptor's size must make the call itself fail (the statement's wording); for every other contradiction a failing verified read (content.ReadAll) of the returned body is accepted as well")
@@ -63,7 +63,7 @@ func main() {
 		r.Counter("corruptions_tried"), applied, r.Counter("corruptions_detected"), r.Counter("corruptions_harmless"), r.Counter("corruptions_unjudged")))
 	code := r.Write(r.N(500, 20000))
 	if code == 0 {
-		for _, c := range []string{"requests_validated", "seek_steps", "seek_faults_injected", "read_steps", "corruptions_detected", "nonempty_referrer_listings", "mounts_honoured", "mounts_fallback", "contradictions_refused"} {
+		for _, c := range []string{"requests_validated", "seek_steps", "seek_faults_injected", "read_steps", "overlapped_readers_read", "corruptions_detected", "nonempty_referrer_listings", "mounts_honoured", "mounts_fallback", "contradictions_refused"} {
 			if r.Counter(c) == 0 {
 				fmt.Printf("BROKEN: property=C13 counter %s is zero: the run observed too little\n", c)
 				code = 2
